@@ -2,6 +2,7 @@
 import itertools, math, json, hashlib
 import numpy as np
 from harness.common import frac, fstr, parse_q, close_log, close_lin, qlog, Infra, np_seed
+from harness.common import sexp
 from harness import spn as S
 from harness import histories as Hist
 from harness.build import build_from_table, table_with_py
@@ -153,7 +154,7 @@ def check_net(ctx, root, ncols, rs, cap, tag, hist=None):
         # implementation self-consistency: likelihood = exp(log-likelihood), every node
         for i, n in enumerate(order):
             li, lli = float(ls[n.id][r]), float(lls[n.id][r])
-            e = math.exp(lli) if lli > -700 else 0.0
+            e = sexp(lli) if lli > -700 else 0.0
             if not (abs(li - e) <= 1e-6 + 2e-4 * max(abs(li), abs(e))):
                 bad = bad or dict(fp='c01-lik-vs-exp-loglik:' + type(n).__name__,
                                   what=f'{type(n).__name__} node: likelihood={li!r} but exp(log_likelihood)={e!r} at x={x.tolist()}',
@@ -285,10 +286,10 @@ def run_corpus(ctx):
             ll = log_likelihood(leaf, X)
             ctx.case('corpus:iso-ood', nontrivial_key='corpus-iso-ood', sample=dict(corpus='iso-ood', xs=c['xs']))
             for x, a, b in zip(c['xs'], l, ll):
-                if abs(float(a) - math.exp(float(b))) > 1e-6 + 2e-4 * float(a):
+                if abs(float(a) - sexp(float(b))) > 1e-6 + 2e-4 * float(a):
                     table, order, _, _ = S.export_net(leaf)
                     ctx.violation('c01-lik-vs-exp-loglik:Isotonic',
-                                  f'Isotonic leaf: likelihood={float(a)!r} but exp(log_likelihood)={math.exp(float(b))!r} at x={x}',
+                                  f'Isotonic leaf: likelihood={float(a)!r} but exp(log_likelihood)={sexp(float(b))!r} at x={x}',
                                   replay=dict(kind='c01', table=table_with_py(table, order), ncols=1, rows=[[x]], node=0))
                     break
 
@@ -375,8 +376,8 @@ def replay(rep):
         okh = True
         for rr in range(len(X)):
             ref = S.ref_value(root, X[rr].astype(np.float64))
-            if abs(math.exp(float(ll[rr])) - ref) > 1e-6 + 2e-4 * ref:
-                print(f'row {X[rr].tolist()}: exp(log_likelihood) = {math.exp(float(ll[rr]))} but the circuit over its own parameters has value {ref}')
+            if abs(sexp(float(ll[rr])) - ref) > 1e-6 + 2e-4 * ref:
+                print(f'row {X[rr].tolist()}: exp(log_likelihood) = {sexp(float(ll[rr]))} but the circuit over its own parameters has value {ref}')
                 okh = False
         if not okh:
             return False
@@ -386,7 +387,7 @@ def replay(rep):
     for i, n in enumerate(order):
         for rr in range(len(X)):
             a, b = float(ls[n.id][rr]), float(lls[n.id][rr])
-            e = math.exp(b) if b > -700 else 0.0
+            e = sexp(b) if b > -700 else 0.0
             if abs(a - e) > 1e-6 + 2e-4 * max(abs(a), abs(e)):
                 print(f'node {i} ({type(n).__name__}) row {X[rr].tolist()}: likelihood {a} vs exp(log_likelihood) {e}')
                 ok = False
